@@ -44,7 +44,8 @@ fn run_case(c: &Case) -> Result<u64, (String, String)> {
         m.pokes.push((0x0190, ISR_AT));
         what += &format!(" with a priority-4 interrupt requested at instruction boundary {i}");
     }
-    let mut p = build(&m);
+    let reuse = c.poison >> 2;
+    let mut p = if reuse == 0 { build(&m) } else { what += &format!(" [on a simulator reset() while in supervisor mode, prior use {reuse}]"); let (pm, steps) = supervisor_prior(&m, reuse); build_reused(&m, &pm, steps).map_err(|e| (format!("panic:{}", panic_site(&e)), format!("setting up a reused simulator: {e}")))? };
     if let Some(i) = c.irq { p.add_source(0x90, 4, vec![i]); }
     // a front-end thread died earlier while holding a buffer lock: the lock is poisoned but free, the devices must keep working
     if c.poison & 1 != 0 { poison_rwlock(&p.kb.get_buffer()); what += " [keyboard lock poisoned]"; }
@@ -134,6 +135,8 @@ fn cases(ctx: &Ctx) -> Vec<Case> {
     for c in &v {
         if c.string_words.len() > 1000 { continue; }
         let short = match c.trap { Trap::Getc | Trap::In => c.kb.len() == 1 && c.kb[0] == 0x41, Trap::Out => c.r0_low == 0x41 && c.kb.is_empty(), Trap::Puts => c.string_words == [0x0041, 0x00FF], Trap::Putsp => c.string_words == [0x4101, 0x0080] || c.string_words == [0x4141], Trap::Halt => false };
+        // life cycle: the call on a simulator that was used before and reset() while in supervisor mode (bits 2-3 of `poison` = kind of prior use)
+        if (short || matches!(c.trap, Trap::Halt)) && !c.ignore_priv && c.cc == 1 && c.regset == 0 { for kind in 1..=2u8 { let mut d = c.clone(); d.poison = kind << 2; w.push(d); } }
         if !short || c.ignore_priv || c.cc != 1 || (c.regset != 0 && !ctx.thorough()) { continue; }
         let Ok(n) = run_case(c) else { continue };
         for i in 0..n { let mut d = c.clone(); d.irq = Some(i); w.push(d); }
@@ -148,7 +151,7 @@ pub fn run(ctx: &Ctx) -> Report {
     let cs = cases(ctx);
     let r = sweep(ctx, cs.len() as u64, 4, |i, acc| {
         let c = &cs[i as usize];
-        acc.evals += 1; acc.transitions += 30; acc.traces += 1; acc.nontrivial += 1; acc.count(&format!("{:?}", c.trap), 1); if c.irq.is_some() { acc.count("with_interrupt", 1); } if c.poison != 0 { acc.count("with_poisoned_lock", 1); }
+        acc.evals += 1; acc.transitions += 30; acc.traces += 1; acc.nontrivial += 1; acc.count(&format!("{:?}", c.trap), 1); if c.irq.is_some() { acc.count("with_interrupt", 1); } if c.poison & 3 != 0 { acc.count("with_poisoned_lock", 1); } if c.poison >> 2 != 0 { acc.count("on_reused_simulator", 1); }
         acc.outcomes.insert(fnv(&c.expected_out) ^ c.trap as u64);
         acc.sample(i, ctx.seed, 501, || format!("{:?} real={} string {:x?} keyboard {:x?}", c.trap, c.real, c.string_words, c.kb));
         if let Err((sig, d)) = run_case(c) { acc.violation(sig, i.to_string() + if ctx.thorough() { ":t" } else { ":q" }, d); }
